@@ -86,7 +86,50 @@ def observe(case):
 
 
 def observe_many(cases):
-    return [observe(case) if case.get("op") != "selections" else observe_selections(case) for case in cases]
+    special = {"selections": observe_selections, "motif": observe_motif}
+    return [special.get(case.get("op"), observe)(case) for case in cases]
+
+
+MOTIF_ORF = "ATGTGGAAATGGAAAGGCTAA"      # M W K W K G *
+
+
+def _revcomp(text):
+    return text[::-1].translate(str.maketrans("ACGT", "TGCA"))
+
+
+def observe_motif(case):
+    """ find_motif_around_anchor on a ring rotated by every k of the case: a background without start codons, one anchor
+        gene (either strand) and one planted ORF with the motif W.W (either strand) """
+    import re
+    from ..common import import_repo
+    import_repo()
+    from .. import build as B, project as P
+    from antismash.common.secmet.test.helpers import DummyCDS, DummyRecord
+    from antismash.detection.hmm_detection.dynamic_profiles._utils import find_motif_around_anchor
+    length = case["L"]
+    rng = random.Random(case["bg"])
+    base = [rng.choice("CG") for _ in range(length)]
+    orf = case["orf"]
+    text = MOTIF_ORF if orf["strand"] == 1 else _revcomp(MOTIF_ORF)
+    start = orf["parts"][0][0]
+    for offset, letter in enumerate(text):
+        base[(start + offset) % length] = letter
+    event = {"id": case["id"], "op": "motif", "L": length, "anchor": case["anchor"], "orf": orf, "reach": case["reach"], "runs": []}
+    for k in case["ks"]:
+        run = {"k": k, "exc": "", "found": []}
+        try:
+            seq = "".join(base[(pos - k) % length] for pos in range(length))
+            record = DummyRecord(seq=seq, circular=True)
+            where = rotate_loc(case["anchor"], k, length)
+            size = sum(e - s for s, e in where["parts"])
+            anchor = DummyCDS(location=B.loc(where), locus_tag="anchor", translation="M" + "A" * (size // 3 - 1))
+            record.add_cds_feature(anchor)
+            found = find_motif_around_anchor(record, anchor, re.compile("W.W"), max_dist=case["reach"], min_len=5)
+            run["found"] = [P.loc(cds.location) for cds in found]
+        except Exception as err:  # pylint: disable=broad-except
+            run["exc"] = type(err).__name__ + ":" + str(err)[:60].replace('"', "'")
+        event["runs"].append(run)
+    return event
 
 
 def observe_selections(case):
@@ -176,10 +219,32 @@ def run(ctx):
         taxon = rng.choice(["fungi", "fungi", "bacteria"])
         selection_cases.append({"op": "selections", "taxon": taxon, "strictness": rng.choice(["strict", "relaxed", "loose"]),
                                 "mult": rng.choice([[1.0, 1.5], [1.5, 0.5], [2.0, 2.0]]), "selections": selections})
+    # the code-based profiles search small ORFs around an anchor gene: same answer for every origin
+    motif_cases = []
+    for _ in range(60 if ctx.quick else 1500):
+        length = rng.choice([300, 360, 420])
+        size = rng.choice([30, 45, 60])
+        a_start = rng.randrange(0, length)
+        a_strand = rng.choice([1, -1])
+        anchor = rotate_loc({"parts": [[0, size]], "strand": a_strand}, a_start, length)
+        reach = rng.choice([40, 60, 90])
+        gap = rng.choice([5, reach - 25, reach - 21, reach + 3, reach + 30, reach + 60])
+        side = rng.choice([1, -1])
+        o_start = (a_start + size + gap) % length if side == 1 else (a_start - gap - len(MOTIF_ORF)) % length
+        orf = rotate_loc({"parts": [[0, len(MOTIF_ORF)]], "strand": rng.choice([1, -1])}, o_start, length)
+        ks = {0, (length - a_start - size // 2) % length, (length - a_start) % length, rng.randrange(1, length),
+              rng.randrange(1, length)}
+        if rng.random() < 0.3:
+            ks.add((length - o_start - 10) % length)     # an origin that cuts the small ORF itself (known finding P28)
+        ks = sorted(ks)
+        motif_cases.append({"op": "motif", "L": length, "anchor": anchor, "orf": orf, "reach": reach, "ks": ks,
+                            "bg": rng.randrange(10 ** 6)})
     for idx, case in enumerate(cases):
         case["id"] = idx
     for idx, case in enumerate(selection_cases):
         case["id"] = 10 ** 8 + idx
+    for idx, case in enumerate(motif_cases):
+        case["id"] = 2 * 10 ** 8 + idx
     samples = {}
     runs = sum(1 + len(case["ks"]) + len(case["orders"]) for case in cases)
 
@@ -206,6 +271,18 @@ def run(ctx):
 
     run_batches(ctx, "Detect_Trace", selection_cases, observe_many, describe_selections, batch=8000, min_per_shard=4)
     ctx.notes["ruleset_selections"] = len(selection_cases)
+
+    def describe_motif(case, event):
+        return {"op": "motif", "input": {k: case[k] for k in ("op", "L", "anchor", "orf", "reach", "ks", "bg")}, "sampled": True,
+                "call": f"props.c07.observe_motif({ {k: case[k] for k in ('L', 'anchor', 'orf', 'reach', 'ks', 'bg')} })  # "
+                        "dynamic_profiles._utils.find_motif_around_anchor(record rotated by k, anchor, re.compile('W.W'), max_dist=reach, min_len=5)",
+                "features": ["anchor_reverse" if case["anchor"]["strand"] == -1 else "anchor_forward"] + (
+                    ["orf_cut_by_the_origin_at_some_rotation"]
+                    if any(len(rotate_loc(case["orf"], k, case["L"])["parts"]) > 1 for k in case["ks"]) else []),
+                "observed": [(run["k"], run["exc"], run["found"]) for run in event["runs"]]}
+
+    run_batches(ctx, "Detect_Trace", motif_cases, observe_many, describe_motif, batch=8000, min_per_shard=8)
+    ctx.notes["motif_searches"] = sum(len(case["ks"]) for case in motif_cases)
     # end-to-end conformance of the base runs: the composed stage relations (Detect, Candidates, RecordSM regions)
     pipeline_cases = [dict(case, id=case["id"] + len(cases)) for case in cases if case["scale"] == 1]
 
@@ -233,6 +310,10 @@ def replay(ctx, record):
     if record["op"] in ("pipeline", "detect", "candidates", "regions") and "ks" not in case:
         event = observe_pipeline_many([case])[0]
         ctx.validate("Pipeline_Trace", [event], {0: {"op": record["op"], "input": record["input"]}})
+        ctx.failures = [f for f in ctx.failures if f["clause"] == record["clause"]]
+        return
+    if record["op"] == "motif":
+        ctx.validate("Detect_Trace", [observe_motif(case)], {0: {"op": "motif", "input": record["input"]}})
         ctx.failures = [f for f in ctx.failures if f["clause"] == record["clause"]]
         return
     if record["op"] == "selections":
